@@ -3,6 +3,7 @@ from __future__ import annotations
 
 import json
 
+import numpy as np
 import z3
 
 from corpus import programs as CP
@@ -12,7 +13,7 @@ from engine.symreal.shim import installed
 from engine.symreal.zutil import zeval
 
 from . import pyh
-from .common import Part, Report, approx_equal, finish, pmap, quiet, tier_timeout_ms, write_replay
+from .common import Part, Q, Report, approx_equal, finish, pmap, quiet, tier_timeout_ms, write_replay
 from .oblig import prove_equal, reach
 
 PID = "C03"
@@ -198,6 +199,53 @@ def task(p, cse, tier, seed):
     return part.d
 
 
+def spec_float_jac_mag(p, which, e):
+    ss, sc = p.s_state(), p.s_control()
+    if which == "G":
+        return [[X.evalmag(X.diff(p.update[r], c), e) for c in ss] for r in ss]
+    if which == "V":
+        return [[X.evalmag(X.diff(p.update[r], c), e) for c in sc] for r in ss]
+    key = which[2:]
+    return [[X.evalmag(X.diff(p.sensors[key][r], c), e) for c in ss] for r in p.s_readings(key)]
+
+
+def task_regimes(p, cse, tier, seed):
+    """Concrete replays in value regimes (tiny states / controls and a tiny step, huge states): see pyh.regime_envs."""
+    import random
+
+    part = Part()
+    part.program(p.id)
+    part.fn("python.ExtendedKalmanFilter.process_jacobian", "python.ExtendedKalmanFilter.control_jacobian", "python.ExtendedKalmanFilter.sensor_jacobian")
+    rng = random.Random(seed + 913)
+    whiches = ["G"] + (["V"] if p.control else []) + ["H:" + k for k in p.s_sensors()]
+    for rnd in range(1 if tier == "quick" else 3):
+        for label, e in pyh.regime_envs(p, rng):
+            if label == "tiny-cov":
+                continue  # Jacobians do not depend on covariance or noise
+            kb = f"{p.id}/cse={int(cse)}/regime={label}"
+            info = {"program": p.id, "cse": cse, "kind": "regime", "regime": label}
+            try:
+                want = {w: np.array(spec_float_jac(p, w, e), dtype=float) for w in whiches}
+                mags = {w: np.array(spec_float_jac_mag(p, w, e), dtype=float) for w in whiches}
+            except (ZeroDivisionError, ValueError, OverflowError):
+                continue
+            if not all(np.all(np.isfinite(want[w])) and np.all(np.isfinite(mags[w])) for w in whiches):
+                continue
+            try:
+                got = float_jacobians(p, cse, e)
+            except Exception as ex:
+                path = write_replay(PID, {"key": kb, "info": info, "inputs": e, "exception": f"{type(ex).__name__}: {ex}"})
+                part.violation(kb, f"Jacobian evaluation raises {type(ex).__name__}: {ex} on a valid input in the {label} regime ({e})", path)
+                continue
+            bad = [w for w in whiches if not pyh.mag_close(np.array(got[w], dtype=float).reshape(want[w].shape), want[w], mags[w], rel=1e-9)]
+            part.record(Q("sat" if bad else "unsat", None, 0.0, ""), f"{kb}: Jacobians == partial derivatives relative to operand magnitude (concrete replay)")
+            if bad:
+                w = bad[0]
+                path = write_replay(PID, {"key": kb, "info": info, "inputs": e})
+                part.violation(kb, f"{w} differs from the partial derivatives in the {label} regime at {e}: got {np.array(got[w], dtype=float).tolist()} expected {want[w].tolist()}", path)
+    return part.d
+
+
 def programs_for(tier, seed):
     if tier == "quick":
         return [CP.P1(), CP.P3(), CP.P8(), CP.P10(), CP.P12(), CP.P14(), CP.P17(), CP.P19(), CP.P20(), CP.P21(), CP.P22(), CP.P24()]
@@ -206,11 +254,16 @@ def programs_for(tier, seed):
     return ps
 
 
+def _dispatch(fn, args):
+    return fn(*args)
+
+
 def run(tier, seed):
     rep = Report(PID, tier, seed, "translation_validation")
     ps = programs_for(tier, seed)
     cses = (True, False)
-    for d in pmap(task, [(p, cse, tier, seed) for p in ps for cse in cses]):
+    tasks = [(task, (p, cse, tier, seed)) for p in ps for cse in cses] + [(task_regimes, (p, True, tier, seed)) for p in ps]
+    for d in pmap(_dispatch, tasks):
         rep.merge(d)
     rep.bounds = {"programs": [p.id for p in ps], "cse": list(cses), "inputs": "all reals (dt, state, control, calibration) where the expressions are defined", "outside": "floating-point rounding; programs outside the corpus"}
     rep.assumptions = ["reals for doubles", "UF abstraction of sin/cos/exp with derivative rules applied by the harness differentiator (sin'->cos, cos'->-sin, exp'->exp)", "covariance validity gates of the constructor treated as assumptions"]
@@ -237,6 +290,15 @@ def replay(path):
     except Exception as ex:
         print(f"REPRODUCED: raises {type(ex).__name__}: {ex}")
         return 1
+    if info.get("kind") == "regime":
+        bad = []
+        for which in got:
+            want = np.array(spec_float_jac(p, which, e), dtype=float)
+            mg = np.array(spec_float_jac_mag(p, which, e), dtype=float)
+            if not pyh.mag_close(np.array(got[which], dtype=float).reshape(want.shape), want, mg, rel=1e-9):
+                bad.append(which)
+        print("REPRODUCED" if bad else "not reproduced", bad)
+        return 1 if bad else 0
     bad = 0
     for which in got:
         spec = spec_float_jac(p, which, e)
